@@ -327,7 +327,7 @@ def observe(fit, points=POINTS, reset=(1.0, 1.0)):
     out["costs"] = costs
     out["cons"] = [float(c.cost(np.asarray(points[1]))) for c in fit.parameter_constraints]
     out["fixed"] = {k: float(v) for k, v in fixed.items()}
-    out["limits"] = {k: [float(t) for t in v] for k, v in getattr(fit._fitter, "limited_parameters", {}).items()}
+    out["limits"] = {k: [None if t is None else float(t) for t in v] for k, v in getattr(fit._fitter, "limited_parameters", {}).items()}
     out["start"] = start
     fit.set_parameter_values(**{n: v for n, v in zip(names, reset) if n not in fixed})
     return out
